@@ -138,7 +138,7 @@ PROPS = {
         "assumptions": ['values serialise to >= 1 byte (the adapter skips empty serialisations); sizes are >= 0 (negative sizes are rejected by the LRU)'],
     },
     "C20": {
-        "theorems": ["SV.Props.C20.never_more_than_size", "SV.Props.C20.invariant_put", "SV.Props.C20.invariant_hasOrAdd", "SV.Props.C20.invariant_remove", "SV.Props.C20.just_inserted_resident", "SV.Props.C20.survives_guaranteed_insertions", "SV.Props.C20.slots_per_shard", "SV.Props.C20.fifo_order", "SV.Props.C20.views_agree", "SV.Props.C20.hasOrAdd_inserts_iff_absent", "SV.Props.C20.put_invokes_each_handler_once"],
+        "theorems": ["SV.Props.C20.ring_refines_age_model", "SV.Props.C20.ring_cache_refines_age_model", "SV.Props.C20.ring_never_more_than_size", "SV.Props.C20.ring_just_inserted_resident", "SV.Props.C20.ring_clear_state", "SV.Props.C20.never_more_than_size", "SV.Props.C20.invariant_put", "SV.Props.C20.invariant_hasOrAdd", "SV.Props.C20.invariant_remove", "SV.Props.C20.just_inserted_resident", "SV.Props.C20.survives_guaranteed_insertions", "SV.Props.C20.slots_per_shard", "SV.Props.C20.fifo_order", "SV.Props.C20.views_agree", "SV.Props.C20.hasOrAdd_inserts_iff_absent", "SV.Props.C20.put_invokes_each_handler_once"],
         "modules": ["SV.Props.C20"],
         "runs": [{"component": "fifo", "thorough_seeds": 2}],
         "rule": 'random Put/HasOrAdd/Get/Remove/Clear/Register/UnRegister histories on fifocache.NewShardedCache, 1-4 shards, sizes from 2 slots per shard; per-shard Keys order compared exactly with one shard; thorough adds all 12^5 histories over 4 keys (one shard, size 3); distinct = distinct (operation kind, canonical output) pairs',
